@@ -278,6 +278,19 @@ int write_python_table_native(std::ostream &out) {
     }
   }
 
+  // A class may derive from a class of a library that is not part of this
+  // module.  We cannot order that library, and must not wait for it either.
+  for (auto it = dependencies.begin(); it != dependencies.end(); ++it) {
+    std::set<string> &deps = it->second;
+    for (auto di = deps.begin(); di != deps.end();) {
+      if (dependencies.find(*di) == dependencies.end()) {
+        di = deps.erase(di);
+      } else {
+        ++di;
+      }
+    }
+  }
+
   // Now add the libraries in their proper ordering, based on dependencies.
   vector_string libraries;
   while (libraries.size() < dependencies.size()) {
